@@ -9,7 +9,9 @@
 //	maprace  BaseMappingHandler.handleConnection — barrier-released arrivals; admitted ones park in PrepareConnection.
 //	mapseq   BaseMappingHandler.handleConnection with real tunnels — open/close histories, live tunnels vs the limit.
 //	quota    conncode.Service CreateConnectionCode / ActivateConnectionCode over a gated store — every caller parks at its
-//	         first storage WRITE, i.e. between "count active" and "create"; schedules are replayed deterministically.
+//	         first storage WRITE, i.e. between "count active" and "create" (and before the SetNX of the per-client admission
+//	         marker where the tree has one); schedules are replayed deterministically.
+//	qfault   the same two requests at a FULL quota while exactly one storage read of the count fails, for every read position.
 package main
 
 import (
@@ -24,6 +26,7 @@ import (
 	"runtime"
 	"sort"
 	"strconv"
+	"strings"
 	"sync"
 	"sync/atomic"
 	"time"
@@ -34,6 +37,7 @@ import (
 	"tunnox-core/internal/cloud/repos"
 	"tunnox-core/internal/cloud/services"
 	"tunnox-core/internal/config"
+	"tunnox-core/internal/constants"
 	coreerrors "tunnox-core/internal/core/errors"
 	"tunnox-core/internal/core/idgen"
 	"tunnox-core/internal/core/storage/memory"
@@ -788,96 +792,174 @@ func gid() int64 {
 	return id
 }
 
-// gatedStore: the real memory store; a registered caller parks before its FIRST write (everything before it is the
-// "count active" phase, everything from it on is the "create" phase).  Unregistered goroutines pass through.
+// the per-client admission marker of fixes/C17-quota-per-client-admission.diff (a literal: the constant does not exist on
+// a tree without the fix)
+const admitPrefix = "tunnox:runtime:conncode:admit:"
+
+// gatedStore: the real memory store seen by the whole server fixture.
+//   - a registered caller parks (1) before its first SetNX of an admission marker — if the tree has that step — and (2) before
+//     its first other write: everything before (2) is the "count active" phase, everything from (2) on is the "create" phase;
+//   - for the goroutine under a read-fault run, every Get / GetList is recorded (class of the key) and the k-th one fails.
+//
+// Unregistered goroutines (background loops of the fixture, the scheduler's own queries) pass through.
 type gatedStore struct {
 	*memory.Storage
 	mu      sync.Mutex
 	callers map[int64]*qcaller
+
+	traceGid  int64 // 0 = off
+	traceKind string
+	trace     []int
+	faultAt   int
+	fired     bool
 }
 type qcaller struct {
-	parkedOnce bool
-	arrived    chan struct{}
-	release    chan struct{}
+	parkedAdmit bool
+	parkedWrite bool
+	arrived     chan struct{}
+	release     chan struct{}
 }
 
-func (s *gatedStore) gate() {
+func (s *gatedStore) gate(key string) {
 	s.mu.Lock()
 	q := s.callers[gid()]
 	s.mu.Unlock()
-	if q == nil || q.parkedOnce {
+	if q == nil {
 		return
 	}
-	q.parkedOnce = true
+	if strings.HasPrefix(key, admitPrefix) {
+		if q.parkedAdmit {
+			return
+		}
+		q.parkedAdmit = true
+	} else {
+		if q.parkedWrite {
+			return
+		}
+		q.parkedWrite = true
+	}
 	q.arrived <- struct{}{}
 	<-q.release
 }
+
+// read: record / fail one storage read of the traced goroutine
+func (s *gatedStore) read(key string, isList bool) error {
+	s.mu.Lock()
+	defer s.mu.Unlock()
+	if s.traceGid == 0 || s.traceGid != gid() {
+		return nil
+	}
+	class := 2
+	switch {
+	case isList:
+		class = 0
+	case s.traceKind == "code" && strings.HasPrefix(key, constants.KeyPrefixRuntimeConnectionCodeByID):
+		class = 1
+	case s.traceKind == "mapping" && strings.HasPrefix(key, constants.KeyPrefixPortMapping+":"):
+		class = 1
+	}
+	k := len(s.trace)
+	s.trace = append(s.trace, class)
+	if k == s.faultAt {
+		s.fired = true
+		return errors.New("verif: injected storage read failure (i/o timeout)")
+	}
+	return nil
+}
+func (s *gatedStore) Get(key string) (any, error) {
+	if err := s.read(key, false); err != nil {
+		return nil, err
+	}
+	return s.Storage.Get(key)
+}
+func (s *gatedStore) GetList(key string) ([]any, error) {
+	if err := s.read(key, true); err != nil {
+		return nil, err
+	}
+	return s.Storage.GetList(key)
+}
 func (s *gatedStore) Set(key string, value any, ttl time.Duration) error {
-	s.gate()
+	s.gate(key)
 	return s.Storage.Set(key, value, ttl)
 }
 func (s *gatedStore) SetNX(key string, value any, ttl time.Duration) (bool, error) {
-	s.gate()
+	s.gate(key)
 	return s.Storage.SetNX(key, value, ttl)
 }
-func (s *gatedStore) Delete(key string) error { s.gate(); return s.Storage.Delete(key) }
+func (s *gatedStore) Delete(key string) error {
+	if !strings.HasPrefix(key, admitPrefix) { // giving the marker back is part of the step that ends the request
+		s.gate(key)
+	}
+	return s.Storage.Delete(key)
+}
 func (s *gatedStore) AppendToList(key string, value any) error {
-	s.gate()
+	s.gate(key)
 	return s.Storage.AppendToList(key, value)
 }
 func (s *gatedStore) RemoveFromList(key string, value any) error {
-	s.gate()
+	s.gate(key)
 	return s.Storage.RemoveFromList(key, value)
 }
 func (s *gatedStore) SetList(key string, values []any, ttl time.Duration) error {
-	s.gate()
+	s.gate(key)
 	return s.Storage.SetList(key, values, ttl)
 }
 func (s *gatedStore) SetHash(key string, field string, value any) error {
-	s.gate()
+	s.gate(key)
 	return s.Storage.SetHash(key, field, value)
 }
-func (s *gatedStore) Incr(key string) (int64, error) { s.gate(); return s.Storage.Incr(key) }
+func (s *gatedStore) Incr(key string) (int64, error) { s.gate(key); return s.Storage.Incr(key) }
 func (s *gatedStore) IncrBy(key string, v int64) (int64, error) {
-	s.gate()
+	s.gate(key)
 	return s.Storage.IncrBy(key, v)
 }
 func (s *gatedStore) CompareAndSwap(key string, o, n any, ttl time.Duration) (bool, error) {
-	s.gate()
+	s.gate(key)
 	return s.Storage.CompareAndSwap(key, o, n, ttl)
 }
 
 const (
 	targetClient = int64(10000001)
 	listenClient = int64(10000002)
+	oConflict    = 5
 )
 
-func runQuota(c caseIn) *caseOut {
-	out := newOut()
+// quotaWorld: a full server fixture over one gated store, a ConnectionCodeService with the wanted limits, and the
+// pre-existing occupancy of the client under test.
+type quotaWorld struct {
+	cancel    context.CancelFunc
+	fx        *server.VerifFixture
+	gs        *gatedStore
+	kind      string
+	admit     func(code string) error
+	newCode   func(k int) string
+	occupancy func() int
+	snapshot  func() string
+}
+
+func (w *quotaWorld) close() { w.fx.Close(); w.cancel() }
+
+func newQuotaWorld(kind string, max, pre int, out *caseOut) *quotaWorld {
 	ctx, cancel := context.WithCancel(context.Background())
-	defer cancel()
-	gs := &gatedStore{Storage: memory.New(ctx), callers: map[int64]*qcaller{}}
+	gs := &gatedStore{Storage: memory.New(ctx), callers: map[int64]*qcaller{}, faultAt: -1}
 	fx, err := server.VerifNewFixture(ctx, gs, server.VerifFixtureOptions{})
 	must(err)
-	defer fx.Close()
 	ccRepo := repos.NewConnectionCodeRepository(fx.Repo)
 	pmRepo := repos.NewPortMappingRepo(fx.Repo)
-	svc := services.NewConnectionCodeService(ccRepo, fx.Cloud.GetPortMappingService(), pmRepo,
-		&services.ConnectionCodeServiceConfig{MaxActiveCodesPerClient: c.Max, MaxActiveMappingsPerClient: c.Max}, ctx)
-	if c.Kind == "mapping" {
-		// codes come from distinct target clients and are never the bottleneck
-		svc = services.NewConnectionCodeService(ccRepo, fx.Cloud.GetPortMappingService(), pmRepo,
-			&services.ConnectionCodeServiceConfig{MaxActiveCodesPerClient: 1000, MaxActiveMappingsPerClient: c.Max}, ctx)
+	cfg := &services.ConnectionCodeServiceConfig{MaxActiveCodesPerClient: max, MaxActiveMappingsPerClient: max}
+	if kind == "mapping" { // codes come from distinct target clients and are never the bottleneck
+		cfg.MaxActiveCodesPerClient = 1000
 	}
-	n := c.Threads
-	newCode := func(k int) string {
+	svc := services.NewConnectionCodeService(ccRepo, fx.Cloud.GetPortMappingService(), pmRepo, cfg, ctx)
+	w := &quotaWorld{cancel: cancel, fx: fx, gs: gs, kind: kind}
+	w.newCode = func(k int) string {
 		cc, err := svc.CreateConnectionCode(&services.CreateConnectionCodeRequest{
 			TargetClientID: targetClient + int64(100+k), TargetAddress: "tcp://127.0.0.1:80", CreatedBy: "verif"})
 		must(err)
 		return cc.Code
 	}
-	occupancy := func() int {
-		if c.Kind == "code" {
+	w.occupancy = func() int {
+		if kind == "code" {
 			k, err := ccRepo.CountActiveByTargetClient(targetClient)
 			must(err)
 			return k
@@ -892,7 +974,7 @@ func runQuota(c caseIn) *caseOut {
 		}
 		return k
 	}
-	snapshot := func() string {
+	w.snapshot = func() string {
 		all, err := gs.Storage.QueryByPrefix("", 0)
 		must(err)
 		ks := make([]string, 0, len(all))
@@ -903,8 +985,8 @@ func runQuota(c caseIn) *caseOut {
 		b, _ := json.Marshal(ks)
 		return string(b)
 	}
-	admit := func(code string) error {
-		if c.Kind == "code" {
+	w.admit = func(code string) error {
+		if kind == "code" {
 			_, err := svc.CreateConnectionCode(&services.CreateConnectionCodeRequest{
 				TargetClientID: targetClient, TargetAddress: "tcp://127.0.0.1:80", CreatedBy: "verif"})
 			return err
@@ -913,38 +995,49 @@ func runQuota(c caseIn) *caseOut {
 			Code: code, ListenClientID: listenClient, ListenAddress: "0.0.0.0:9999"})
 		return err
 	}
-	// pre-existing occupancy and, for activations, one fresh code per caller — all created ungated
-	codes := make([]string, n)
-	for k := 0; k < c.Pre; k++ {
+	for k := 0; k < pre; k++ { // pre-existing occupancy, created ungated
 		code := ""
-		if c.Kind == "mapping" {
-			code = newCode(1000 + k)
+		if kind == "mapping" {
+			code = w.newCode(1000 + k)
 		}
-		if err := admit(code); err != nil {
+		if err := w.admit(code); err != nil {
 			out.fail("harness", fmt.Sprintf("pre-fill %d refused: %v", k, err))
 		}
 	}
-	if c.Kind == "mapping" {
+	return w
+}
+
+func quotaKey(kind string) string {
+	if kind == "mapping" {
+		return "conncode-activate-mapping-quota"
+	}
+	return "conncode-create-quota"
+}
+
+func runQuota(c caseIn) *caseOut {
+	out := newOut()
+	w := newQuotaWorld(c.Kind, c.Max, c.Pre, out)
+	defer w.close()
+	gs := w.gs
+	n := c.Threads
+	codes := make([]string, n)
+	if c.Kind == "mapping" { // one fresh code per caller
 		for i := 0; i < n; i++ {
-			codes[i] = newCode(i)
+			codes[i] = w.newCode(i)
 		}
 	}
 	callers := make([]*qcaller, n)
 	done := make([]chan error, n)
-	phase := make([]int, n)
+	phase := make([]int, n) // 0 not started, 1 parked, 2 returned
 	outcome := make([]int, n)
 	sample := func(what string) {
-		k := occupancy()
+		k := w.occupancy()
 		out.Counts = append(out.Counts, [2]int{k, 0})
 		if k > out.MaxSeen {
 			out.MaxSeen = k
 		}
 		if k > c.Max && k > c.Pre {
-			key := "conncode-create-quota"
-			if c.Kind == "mapping" {
-				key = "conncode-activate-mapping-quota"
-			}
-			out.fail(key, fmt.Sprintf("per-client limit %d but %d active entries after %s", c.Max, k, what))
+			out.fail(quotaKey(c.Kind), fmt.Sprintf("per-client limit %d but %d active entries after %s", c.Max, k, what))
 		}
 	}
 	settle := func(i int, before string) {
@@ -956,10 +1049,13 @@ func runQuota(c caseIn) *caseOut {
 			switch {
 			case err == nil:
 				outcome[i] = oAdmitted
-			case isQuotaErr(err):
+			case isQuotaErr(err) || coreerrors.IsCode(err, coreerrors.CodeConflict):
 				outcome[i] = oRefused
-				if after := snapshot(); after != before {
-					out.fail("quota-refused-changed-storage", fmt.Sprintf("caller %d refused by the quota but the stored key set changed", i))
+				if !isQuotaErr(err) {
+					outcome[i] = oConflict
+				}
+				if after := w.snapshot(); after != before {
+					out.fail("quota-refused-changed-storage", fmt.Sprintf("caller %d refused (%v) but the stored key set changed", i, err))
 				}
 			default:
 				outcome[i] = oError
@@ -975,7 +1071,7 @@ func runQuota(c caseIn) *caseOut {
 		if i < 0 || i >= n || phase[i] == 2 {
 			return
 		}
-		before := snapshot()
+		before := w.snapshot()
 		if phase[i] == 0 {
 			callers[i] = &qcaller{arrived: make(chan struct{}), release: make(chan struct{})}
 			done[i] = make(chan error, 1)
@@ -985,17 +1081,11 @@ func runQuota(c caseIn) *caseOut {
 				gs.callers[gid()] = q
 				gs.mu.Unlock()
 				close(reg)
-				d <- admit(code)
+				d <- w.admit(code)
 			}(callers[i], done[i], codes[i])
 			<-reg
 		} else {
 			callers[i].release <- struct{}{}
-			select {
-			case err := <-done[i]:
-				done[i] <- err
-			case <-time.After(20 * time.Second):
-				done[i] <- errors.New("timeout")
-			}
 		}
 		settle(i, before)
 		out.Sched = append(out.Sched, i)
@@ -1010,7 +1100,72 @@ func runQuota(c caseIn) *caseOut {
 		}
 	}
 	out.Outcomes = outcome
-	out.Final = occupancy()
+	out.Final = w.occupancy()
+	return out
+}
+
+// runQuotaFault: the client is AT its quota (pre = max).  A fault-free request must be refused by the quota; its storage
+// reads are recorded.  Then, for every read position k, a fresh world is built and the same request is made while exactly
+// the k-th read fails: it must be refused or fail — never be admitted — and must leave the stored key set unchanged.
+func runQuotaFault(c caseIn) *caseOut {
+	out := newOut()
+	request := func(faultAt int) (outcome int, changed bool, occ int, trace []int, fired bool) {
+		w := newQuotaWorld(c.Kind, c.Max, c.Max, out)
+		defer w.close()
+		code := ""
+		if c.Kind == "mapping" {
+			code = w.newCode(0)
+		}
+		before := w.snapshot()
+		res := make(chan error, 1)
+		go func() {
+			w.gs.mu.Lock()
+			w.gs.traceGid, w.gs.traceKind, w.gs.faultAt, w.gs.trace, w.gs.fired = gid(), c.Kind, faultAt, nil, false
+			w.gs.mu.Unlock()
+			err := w.admit(code)
+			w.gs.mu.Lock()
+			w.gs.traceGid = 0
+			w.gs.mu.Unlock()
+			res <- err
+		}()
+		err := <-res
+		switch {
+		case err == nil:
+			outcome = 2
+		case isQuotaErr(err):
+			outcome = 0
+		default:
+			outcome = 1
+		}
+		return outcome, w.snapshot() != before, w.occupancy(), w.gs.trace, w.gs.fired
+	}
+	o, changed, occ, trace, _ := request(-1)
+	if o != 0 || changed || occ != c.Max {
+		out.fail("quota-full-not-refused", fmt.Sprintf("%s: limit %d reached, fault-free request: outcome %d, storage changed %v, %d active", c.Kind, c.Max, o, changed, occ))
+	}
+	out.Keys = append(out.Keys, trace)
+	for k := range trace {
+		o, changed, occ, tr, fired := request(k)
+		out.Outcomes = append(out.Outcomes, o)
+		ch := 0
+		if changed {
+			ch = 1
+		}
+		out.Counts = append(out.Counts, [2]int{occ, ch})
+		if occ > out.MaxSeen {
+			out.MaxSeen = occ
+		}
+		if !fired || len(tr) <= k || tr[k] != trace[k] {
+			out.fail("harness", fmt.Sprintf("read %d of the fault run is not the read recorded by the dry run", k))
+		}
+		what := map[int]string{0: "the index read (GetList)", 1: "a by-id read (Get) of one of the client's records", 2: "a read outside the count"}[trace[k]]
+		if o == 2 || occ > c.Max {
+			out.fail(quotaKey(c.Kind)+"-read-fault-admitted", fmt.Sprintf("%s: limit %d reached; the request during which read #%d — %s — failed was ADMITTED: %d active entries", c.Kind, c.Max, k, what, occ))
+		} else if changed {
+			out.fail("quota-refused-changed-storage", fmt.Sprintf("%s: limit %d reached; request with failing read #%d (%s) was not admitted but the stored key set changed", c.Kind, c.Max, k, what))
+		}
+	}
+	out.Final = c.Max
 	return out
 }
 
@@ -1032,6 +1187,8 @@ func runCase(raw json.RawMessage) interface{} {
 		return runMapSeq(c)
 	case "quota":
 		return runQuota(c)
+	case "qfault":
+		return runQuotaFault(c)
 	}
 	o := newOut()
 	o.fail("harness", "unknown mode "+c.Mode)
